@@ -47,9 +47,18 @@ CycleCases == {[kind |-> "route", pos |-> PosC(kx[1]), links |-> CycLinks(kx[1],
                   fr \in {1, 4}, tt \in {1, 4}}
 CycleThin == {x \in CycleCases : x.from # x.to /\ (x.opt = "time" \/ x.links[1].speed = 4)
                                  /\ (x.links[1].speed + 3 * x.links[2].speed + 5 * x.links[3].len + 7 * x.links[4].u + (IF x.from[1] = 1 THEN 0 ELSE 1)) % MC = 0}
+(* the chord family: the chain 1-2-3-4 plus an expensive chord 2-4 and a detour 1-4 whose cost lies between the optimum and
+   the cost through the chord: an estimate that trusts a direct link to the goal is not a lower bound *)
+ChordPairs == << <<1, 2>>, <<2, 3>>, <<3, 4>>, <<2, 4>>, <<1, 4>> >>
+Perm5 == {q \in [1..5 -> 1..5] : \A a \in 1..5, b \in 1..5 : a # b => q[a] # q[b]}
+ChordLinks(e1, e2, q) == [i \in 1..5 |-> LET p == ChordPairs[q[i]]
+                                             ex == IF q[i] = 4 THEN e1 ELSE IF q[i] = 5 THEN e2 ELSE 0
+                                         IN [u |-> p[1], v |-> p[2], len |-> (PosC(1)[p[2]][1] - PosC(1)[p[1]][1]) + ex, speed |-> 1, extra |-> ex]]
+ChordCases == {[kind |-> "route", pos |-> PosC(1), links |-> ChordLinks(40, e2, q), opt |-> o, from |-> QPt(1, fr), to |-> QPt(1, tt)] :
+                  e2 \in {2, 6}, q \in {x \in Perm5 : (x[1] + 2 * x[2] + 3 * x[3]) % MC = 0}, o \in {"time", "distance"}, fr \in {1, 4}, tt \in {1, 4}}
 GenInit == /\ net = 0 /\ opt = 0 /\ s = 0 /\ t = 0 /\ open = {} /\ closed = {} /\ g = 0 /\ phase = "gen"
            /\ c \in {x \in Cases : x.from # x.to /\ NearestUnique(x.pos, x.links, x.from) /\ NearestUnique(x.pos, x.links, x.to)
-                                   /\ (x.from[1] * 3 + x.to[1] * 5 + x.from[2]) % 4 = 0} \cup CycleThin
+                                   /\ (x.from[1] * 3 + x.to[1] * 5 + x.from[2]) % 4 = 0} \cup CycleThin \cup {x \in ChordCases : x.from # x.to}
            /\ PrintT(ToJson(c))
 GenSpec == GenInit /\ [][UNCHANGED <<vars, c>>]_<<vars, c>>
 =============================================================================
